@@ -219,7 +219,7 @@ def dangling(site, K=1, fix=None):
         args = hole_args('n', 1, TBL)
     else:
         args = hole_args('n', K, WORD)
-    args = args + [('form', IntRange(0, 2 if site in ('ref_right_table', 'ref_left_table') else 1))]
+    args = args + [('form', IntRange(0, 2 if site in ('ref_right_table', 'ref_left_table', 'index_column') else 1))]
 
     def build(a):
         n = text_of(a, 'n', 1 if site.endswith('_table') else K)
@@ -267,7 +267,8 @@ def dangling(site, K=1, fix=None):
             kind = 'column'
         else:  # index_column
             exists = n == 'id' or n == 'k'
-            idx = '  indexes {\n    ' + (n if a['form'] == 0 else '(id, ' + n + ')') + '\n  }\n'
+            # single subject, composite with another column, composite with a backtick expression
+            idx = '  indexes {\n    ' + (n if a['form'] == 0 else ('(id, ' + n + ')' if a['form'] == 1 else '(`id + 1`, ' + n + ') [unique]')) + '\n  }\n'
             kind = 'column'
         doc = base.replace('{INL}', inl).replace('{IDX}', idx) + tail
         return doc, exists, kind
